@@ -40,7 +40,22 @@ def norm(d):
     return d
 
 
+_CACHE = {}
+
+
 def eng(text, v, api):
+    """engine outcome of one program text; memoised (evaluation of a text is a pure function of the
+    text: each call builds a new parser and context), which only saves time in the reductions"""
+    k = (text, v, api)
+    r = _CACHE.get(k)
+    if r is None:
+        if len(_CACHE) > 60000:
+            _CACHE.clear()
+        r = _CACHE[k] = _eng(text, v, api)
+    return r
+
+
+def _eng(text, v, api):
     if api == 'evaluate':
         o = call(evaluate, text, v, item=1)
     else:
@@ -53,9 +68,18 @@ def eng(text, v, api):
     return ('ok', norm(describe(val)))
 
 
-def mismatch_kind(o):
+def mismatch_kind(o, exp=None):
     if o[0] == 'ok':
-        return 'value'
+        got = o[1]
+        if exp is None or not isinstance(exp, list):
+            return 'value'
+        if any(x is None for x in got):
+            return 'value:none-item'
+        if len(got) != len(exp):
+            return 'value:count'
+        if sorted(map(repr, got)) == sorted(map(repr, exp)):
+            return 'value:order'
+        return 'value:items'
     if o[0] == 'err':
         return 'err:' + o[1]
     return 'exc:%s@%s' % (o[1], o[2])
@@ -74,9 +98,9 @@ def model_run(ast, v):
 
 
 # ============================================================================ classification
-PRIORITY = ['closure-multi', 'recursion', 'partial-chained', 'partial-dynamic', 'partial-static', 'rebind',
-            'named-ref'] + ['fn:' + h for h in HOFS] + ['array-call', 'simple-map', 'typed-param',
-                                                         'dynamic-call', 'inline']
+PRIORITY = ['closure-multi', 'recursion'] + ['fn:' + h for h in HOFS] + [
+    'partial-chained', 'partial-dynamic', 'partial-static', 'rebind', 'named-ref', 'array-call', 'simple-map',
+    'typed-param', 'dynamic-call', 'inline']
 
 
 def feature_of(features):
@@ -86,16 +110,64 @@ def feature_of(features):
     return 'plain'
 
 
-def failing(ast, v, api):
+def has_fitem(d):
+    return any(x and x[0] in ('function', 'array') for x in d)
+
+
+def for_var_in_range(ast):
+    """a for-clause whose range expression mentions (refers to or re-binds) the name of its own variable"""
+    for _, n in fl.subterms(ast):
+        if n[0] in ('for', 'forc') and mentions(n[2], n[1]):
+            return True
+    return False
+
+
+def mentions(ast, name):
+    for _, n in fl.subterms(ast):
+        if n[0] == 'var' and n[1] == name:
+            return True
+        if n[0] in ('for', 'forc', 'let', 'letc') and n[1] == name:
+            return True
+        if n[0] == 'fn' and any(p[0] == name for p in n[1]):
+            return True
+    return False
+
+
+def failing(ast, v, api, want=None):
     """-> None | (mismatch kind, features, expected, got)"""
     m = model_run(ast, v)
     if m is None:
         return None
     exp, ip = m
+    if has_fitem(exp):
+        return None
     o = eng(render(ast), v, api)
     if o[0] == 'ok' and o[1] == exp:
         return None
-    return mismatch_kind(o), ip.features, exp, o
+    mk = mismatch_kind(o, exp)
+    if want is not None and mk != want:
+        return None
+    return mk, ip.features, exp, o
+
+
+def literal_of(d):
+    """described value -> literal AST, or None"""
+    items = []
+    for x in d:
+        if x[0] == 'integer':
+            items.append(['int', int(x[1])])
+        elif x[0] == 'string':
+            items.append(['str', x[1]])
+        elif x[0] == 'boolean':
+            items.append(['bool', x[1] == 'true'])
+        else:
+            return None
+    return items[0] if len(items) == 1 else ['seq'] + items
+
+
+def _chain(*its):
+    for it in its:
+        yield from it
 
 
 def local_candidates(ast):
@@ -107,11 +179,47 @@ def local_candidates(ast):
                 yield fl.replace_at(ast, path, node[:i] + node[i + 1:])
         if node[0] == 'int' and node[1] not in (0, 1):
             yield fl.replace_at(ast, path, ['int', 1])
+        if node[0] == 'scall' and all(a is not None for a in node[2]):
+            # a HOF call -> one direct dynamic call of its function argument
+            a = node[2]
+            alt = None
+            if node[1] in ('for-each', 'filter') and len(a) == 2:
+                alt = ['call', a[1], [a[0]]]
+            elif node[1] == 'fold-left' and len(a) == 3:
+                alt = ['call', a[2], [a[1], a[0]]]
+            elif node[1] == 'fold-right' and len(a) == 3:
+                alt = ['call', a[2], [a[0], a[1]]]
+            elif node[1] == 'for-each-pair' and len(a) == 3:
+                alt = ['call', a[2], [a[0], a[1]]]
+            elif node[1] == 'apply' and a[1][0] == 'arr':
+                alt = ['call', a[0], list(a[1][1])]
+            elif node[1] == 'sort' and len(a) == 3:
+                alt = ['call', a[2], [a[0]]]
+            if alt is not None:
+                yield fl.replace_at(ast, path, alt)
+        if node[0] == 'fn' and any(ty is not None for _, ty in node[1]) or (node[0] == 'fn' and len(node) > 3 and node[3]):
+            yield fl.replace_at(ast, path, ['fn', [[n_, None] for n_, _ in node[1]], node[2], None])
+
+
+def fold_candidates(ast, v):
+    """replace a closed, function-free subterm by the literal of its model value"""
+    for path, node in fl.subterms(ast):
+        if not path or node[0] in ('int', 'str', 'bool', 'var', 'ctx') or fl.size(node) < 3:
+            continue
+        if node[0] == 'seq' and all(x[0] in ('int', 'str', 'bool') for x in node[1:]):
+            continue
+        m = model_run(node, v)
+        if m is None or has_fitem(m[0]):
+            continue
+        lit = literal_of(m[0])
+        if lit is not None and fl.size(lit) < fl.size(node):
+            yield fl.replace_at(ast, path, lit)
 
 
 def minimise(ast, v, api, first, budget=70):
-    """deterministic greedy reduction of a failing program; returns (ast, failure)"""
+    """deterministic greedy reduction of a failing program (same kind of mismatch); returns (ast, failure)"""
     best, res = ast, first
+    want = first[0]
     used = 0
     # 1. smallest failing closed subterm
     subs = sorted(((fl.size(s), i, s) for i, (p, s) in enumerate(fl.subterms(ast)) if p), key=lambda x: x[:2])
@@ -122,7 +230,7 @@ def minimise(ast, v, api, first, budget=70):
         if model_run(s, v) is None:
             continue
         used += 1
-        r = failing(s, v, api)
+        r = failing(s, v, api, want)
         if r is not None:
             best, res = s, r
             break
@@ -130,13 +238,13 @@ def minimise(ast, v, api, first, budget=70):
     improved = True
     while improved and used < budget:
         improved = False
-        for cand in local_candidates(best):
+        for cand in _chain(local_candidates(best), fold_candidates(best, v)):
             if used >= budget:
                 break
             if model_run(cand, v) is None:
                 continue
             used += 1
-            r = failing(cand, v, api)
+            r = failing(cand, v, api, want)
             if r is not None:
                 best, res, improved = cand, r, True
                 break
@@ -226,6 +334,14 @@ class Gen:
                 return n
         return 'v%d' % r.randint(0, 99)
 
+    def forname(self, src, pool=VARNAMES):
+        """name of a for variable: (almost) never one that the range expression mentions"""
+        for _ in range(10):
+            n = self.r.choice(pool)
+            if not mentions(src, n) or self.r.random() < 0.03:
+                return n
+        return 'q'
+
     def randtype(self, fn_ok=True):
         x = self.r.random()
         if x < 0.40:
@@ -288,7 +404,7 @@ class Gen:
         p = r.choice(prods)
         d1 = d - 1
         if p == 'call':
-            ft = F([self.randtype() for _ in range(r.randint(0, 3))], t)
+            ft = F([self.randtype() for _ in range(r.choice((0, 1, 1, 2, 2, 3)))], t)
             return ['call', self.fexpr(ft, env, d1), [self.expr(a, env, d1) for a in ft[1]]]
         if p == 'letcall':
             ft = F([self.randtype(False) for _ in range(r.randint(0, 2))], t if r.random() < 0.7 else elem(t))
@@ -340,8 +456,9 @@ class Gen:
             return [r.choice(['let', 'letc']), n, self.expr(vt, env, d1), self.expr(t, env + ((n, vt),), d1)]
         if p == 'for':
             st = r.choice((IS, SS))
-            n = self.name()
-            return [r.choice(['for', 'forc']), n, self.expr(st, env, d1),
+            src = self.expr(st, env, d1)
+            n = self.forname(src)
+            return [r.choice(['for', 'forc']), n, src,
                     self.expr(r.choice((t, elem(t))), env + ((n, elem(st)),), d1)]
         if p == 'seqlit':
             return ['seq'] + [self.expr(r.choice((t, elem(t))), env, d1) for _ in range(r.randint(1, 3))]
@@ -376,8 +493,8 @@ class Gen:
         d1 = max(d - 1, 0)
         p = r.choice(['for', 'for', 'for-each', 'map', 'seq', 'curried', 'let'])
         st = r.choice((IS, IS, SS))
-        n = r.choice(['i', 'j', 'k', 'x'])
         src = self.lit(st) if r.random() < 0.7 else self.expr(st, env, d1)
+        n = self.forname(src, ['i', 'j', 'k', 'x'])
         env2 = env + ((n, elem(st)),)
         if p == 'for':
             body = self.fexpr(ft, env2, d1, use=n)
@@ -414,18 +531,18 @@ class Gen:
             return self._pipeline(fs, t, env)
         args = [self.expr(a, env, 1) for a in params]
         if p == 'for':
-            return ['for', 'f', fs, ['call', ['var', 'f'], args]]
+            return ['for', 'fq', fs, ['call', ['var', 'fq'], args]]
         if p == 'map':
             return ['map', fs, ['call', ['ctx'], args]]
         if p == 'for-each':
-            return ['scall', 'for-each', [fs, ['fn', [['f', None]], ['call', ['var', 'f'], args], None]]]
+            return ['scall', 'for-each', [fs, ['fn', [['fq', None]], ['call', ['var', 'fq'], args], None]]]
         # let $fs := ... return (for $k in (3,1,2,1) return $fs[$k](args))   -- out of range -> empty -> skipped
         ks = [r.randint(1, 4) for _ in range(r.randint(2, 5))]
         if r.random() < 0.5:
-            body = ['for', 'k', ['seq'] + [['int', k] for k in ks],
-                    ['for', 'h', ['idx', ['var', 'fs'], ['var', 'k']], ['call', ['var', 'h'], args]]]
+            body = ['for', 'kq', ['seq'] + [['int', k] for k in ks],
+                    ['for', 'hq', ['idx', ['var', 'fs'], ['var', 'kq']], ['call', ['var', 'hq'], args]]]
         else:
-            body = ['seq'] + [['for', 'h', ['idx', ['var', 'fs'], ['int', k]], ['call', ['var', 'h'], args]]
+            body = ['seq'] + [['for', 'hq', ['idx', ['var', 'fs'], ['int', k]], ['call', ['var', 'hq'], args]]
                               for k in ks]
         return ['let', 'fs', fs, body]
 
@@ -438,12 +555,17 @@ class Gen:
         return ['scall', which, [fs, self.expr(t, env, 1), cb]]
 
     # ---- expressions of a function type
-    def fexpr(self, ft, env, d, use=None):
+    def fexpr(self, ft, env, d, use=None, simple=False):
         r = self.r
         _, params, ret = ft
         d1 = d - 1
         prods = ['inline', 'inline', 'inline']
-        if use is None:
+        if simple:
+            if self.vars(env, ft) and use is None:
+                prods += ['var', 'var']
+            if use is None and any(s[1] == params and s[2] == ret for s in self.sigs + self.hofs):
+                prods += ['ref', 'ref']
+        elif use is None:
             if self.vars(env, ft):
                 prods += ['var', 'var']
             if any(s[1] == params and s[2] == ret for s in self.sigs + self.hofs):
@@ -482,7 +604,7 @@ class Gen:
                 return ['scall', name, [None if i in pos else self.expr(a, env, d1) for i, a in enumerate(args)]]
             p = 'pdyn'
         if p == 'pdyn':
-            extra = r.randint(0, 2)
+            extra = r.choice((0, 1, 1, 1, 2))
             gargs = list(params)
             holes = list(range(len(params)))
             for _ in range(extra):
@@ -494,7 +616,7 @@ class Gen:
             if not params:
                 # a partial application needs a placeholder: F() cannot be produced this way
                 return self.fexpr(ft, env, d1, use)
-            g = self.fexpr(F(gargs, ret), env, d1, use)
+            g = self.fexpr(F(gargs, ret), env, d1, use, simple=r.random() < 0.75)
             return ['pcall', g, [None if i in holes else self.expr(a, env, d1) for i, a in enumerate(gargs)]]
         # inline
         names = []
@@ -548,7 +670,7 @@ class Gen:
 def g_program(r, v):
     g = Gen(r, v)
     t = r.choice((I, S, IS, IS, SS, B))
-    return g.expr(t, (), r.randint(2, 4))
+    return g.expr(t, (), r.choice((2, 2, 3, 3, 3, 4)))
 
 
 # ============================================================================ closure templates
@@ -942,28 +1064,46 @@ def sort_ast(case):
     return e
 
 
+def atom_label(x):
+    if isinstance(x, bool):
+        return 'boolean'
+    if isinstance(x, fl.Flt):
+        return 'NaN' if x != x else 'float'
+    if isinstance(x, float):
+        return 'NaN' if x != x else 'double'
+    if isinstance(x, int):
+        return 'integer'
+    if fl.is_num(x):
+        return 'decimal'
+    return 'string'
+
+
 def key_class(keys):
     cls = set()
     for k in keys:
         if len(k) != 1:
             cls.add('seq')
         for x in k:
-            if isinstance(x, bool):
-                cls.add('bool')
-            elif isinstance(x, float) and x != x:
-                cls.add('NaN')
-            elif isinstance(x, int):
-                cls.add('int')
-            elif fl.is_num(x):
-                cls.add('num')
-            else:
-                cls.add('str')
-    if 'num' in cls:
-        cls.discard('int')
+            cls.add(atom_label(x))
     return '+'.join(sorted(cls)) or 'empty'
 
 
-def check_sort(case, out):
+def prim_class(x):
+    lab = atom_label(x)
+    return {'boolean': 'bool', 'string': 'str'}.get(lab, 'num')
+
+
+def keyfn_form(case):
+    kf = case.get('keyfn')
+    if kf is None:
+        return 'none'
+    if kf[0] == 'fn':
+        return 'typed-inline' if any(t is not None for _, t in kf[1]) else 'inline'
+    return {'let': 'closure', 'pcall': 'partial', 'scall': 'partial', 'ref': 'named-ref'}.get(kf[0], kf[0])
+
+
+def sort_verdict(case):
+    """-> ('undecided', why) | ('ok',) | ('fail', category, keyclass, text, expected, got)"""
     v, api = case['v'], case['api']
     ip = Interp(v)
     try:
@@ -977,35 +1117,25 @@ def check_sort(case, out):
         else:
             keys = [fl.atomize([it]) for it in items]
     except (ModelError, RecursionError, IndexError):
-        out.dim('undecided', 'sort-model')
-        out.nontrivial = False
-        return
+        return ('undecided', 'sort-model')
     kc = key_class(keys)
-    out.dim('sort_key_class', kc)
-    out.dim('sort_form', '%s/%s/coll=%s/keyfn=%s' % (case.get('via'), case.get('extract') or 'plain',
-                                                    case.get('coll'), case['keyfn'][0] if case.get('keyfn') else None))
-    out.dim('sort_size', len(items))
     text = render(sort_ast(case))
     o = eng(text, v, api)
     try:
         order = fl.stable_sort(items, keys)
     except SortTypeError:
-        singles = all(len(k) == 1 for k in keys)
-        if singles:
-            out.dim('oracle', 'sort:incomparable')
-            if o[0] == 'ok':
-                out.fail('C16/sort/incomparable-keys-accepted', {'expr': text, 'expected': 'XPTY0004', 'got': o[1]})
-            elif o[0] == 'exc':
-                out.fail('C16/sort/%s' % mismatch_kind(o), {'expr': text, 'got': list(o)})
-            elif o[1] != 'XPTY0004':
-                out.dim('undecided', 'sort-error-code:' + o[1])
-        else:
-            out.dim('undecided', 'sort-incomparable-seq')
-        out.obs = '%s -> %s' % (text[:120], list(o)[:2])
-        return
+        if not all(len(k) == 1 for k in keys):
+            return ('undecided', 'sort-incomparable-seq')
+        pc = '~'.join(sorted({prim_class(k[0]) for k in keys}))
+        if o[0] == 'ok':
+            return ('fail', 'incomparable-keys-accepted', pc, text, 'XPTY0004', o[1], keys)
+        if o[0] == 'exc':
+            return ('fail', mismatch_kind(o), 'incomparable', text, 'XPTY0004', list(o), keys)
+        if o[1] != 'XPTY0004':
+            return ('undecided', 'sort-error-code:' + o[1])
+        return ('ok', 'sort:incomparable', kc, text, o, keys)
     except ModelError:
-        out.dim('undecided', 'sort-model')
-        return
+        return ('undecided', 'sort-model')
 
     def ext(it):
         if case.get('extract') == 'arr2':
@@ -1014,35 +1144,71 @@ def check_sort(case, out):
 
     din = [ext(it) for it in items]
     expected = [din[i] for i in order]
-    out.dim('oracle', 'sort:stable-order')
-    ties = len(items) - len({tuple(map(repr, fl.describe(k))) for k in keys})
-    out.dim('sort_ties', 'yes' if ties else 'no')
-    out.obs = '%s -> %s' % (text[:100], o[1] if o[0] == 'ok' else list(o))
     if o[0] != 'ok':
-        out.fail('C16/sort/%s/%s' % (mismatch_kind(o), kc), {'expr': text, 'expected': expected, 'got': list(o)})
-        return
+        return ('fail', mismatch_kind(o), 'keyfn=%s/via=%s' % (keyfn_form(case), case.get('via')), text, expected,
+                list(o), keys)
     got = o[1]
     if got == expected:
-        return
-    canon = lambda d: repr(d)
-    if sorted(map(canon, got)) != sorted(map(canon, din)):
-        out.fail('C16/sort/not-permutation/%s' % kc, {'expr': text, 'expected': expected, 'got': got})
-        return
+        return ('ok', 'sort:stable-order', kc, text, o, keys)
+    if sorted(map(repr, got)) != sorted(map(repr, din)):
+        return ('fail', 'not-permutation', kc, text, expected, got, keys)
     keyof = {}
     for d, k in zip(din, keys):
-        keyof.setdefault(canon(d), k)
-    ordered = True
-    for a, b in zip(got, got[1:]):
-        try:
-            if fl.key_cmp(keyof[canon(a)], keyof[canon(b)]) > 0:
-                ordered = False
-        except ModelError:
-            out.dim('undecided', 'sort-model')
-            return
-    if not ordered:
-        out.fail('C16/sort/order/%s' % kc, {'expr': text, 'expected': expected, 'got': got})
+        keyof.setdefault(repr(d), k)
+    try:
+        ordered = all(fl.key_cmp(keyof[repr(a)], keyof[repr(b)]) <= 0 for a, b in zip(got, got[1:]))
+    except ModelError:
+        return ('undecided', 'sort-model')
+    return ('fail', 'order' if not ordered else 'stability', kc, text, expected, got, keys)
+
+
+def check_sort(case, out):
+    r = sort_verdict(case)
+    if r[0] == 'undecided':
+        out.dim('undecided', r[1])
+        out.nontrivial = False
+        return
+    keys = r[-1]
+    out.dim('sort_key_class', key_class(keys))
+    out.dim('sort_form', 'via=%s/%s/coll=%s/keyfn=%s' % (case.get('via'), case.get('extract') or 'plain',
+                                                        case.get('coll'), keyfn_form(case)))
+    out.dim('sort_size', len(keys))
+    ties = len(keys) - len({repr(fl.describe(k)) for k in keys})
+    out.dim('sort_ties', 'yes' if ties else 'no')
+    if r[0] == 'ok':
+        out.dim('oracle', r[1])
+        out.obs = '%s -> %s' % (r[3][:110], r[4][1] if r[4][0] == 'ok' else list(r[4]))
+        return
+    out.dim('oracle', 'sort:incomparable' if r[4] == 'XPTY0004' else 'sort:stable-order')
+    cat = r[1]
+    if cat in ('order', 'stability', 'not-permutation'):
+        # reduce to a minimal failing sub-multiset of the items (same category), key by its key types
+        cur, res = case, r
+        improved = True
+        while improved and len(cur['items']) > 2:
+            improved = False
+            for i in range(len(cur['items'])):
+                cand = dict(cur, items=cur['items'][:i] + cur['items'][i + 1:])
+                r2 = sort_verdict(cand)
+                if r2[0] == 'fail' and r2[1] == cat:
+                    cur, res, improved = cand, r2, True
+                    break
+        r = res
+        labs = {atom_label(x) for k in r[-1] for x in k}
+        if 'NaN' in labs:
+            kc = 'NaN'
+        elif any(len(k) != 1 for k in r[-1]):
+            kc = 'seq'
+        elif labs <= {'boolean'} or labs <= {'string'}:
+            kc = '+'.join(labs)
+        elif labs <= {'integer', 'decimal', 'double', 'float'}:
+            kc = 'double+float' if {'double', 'float'} <= labs else 'numeric'
+        else:
+            kc = 'mixed'
+        out.fail('C16/sort/%s/%s' % (cat, kc), {'expr': r[3], 'expected': r[4], 'got': r[5]})
     else:
-        out.fail('C16/sort/stability/%s' % kc, {'expr': text, 'expected': expected, 'got': got})
+        out.fail('C16/sort/%s/%s' % (cat, r[2]), {'expr': r[3], 'expected': r[4], 'got': r[5]})
+    out.obs = '%s -> %s' % (r[3][:110], r[5])
 
 
 # ============================================================================ harness interface
@@ -1054,6 +1220,10 @@ def check_program(case, out):
         out.nontrivial = False
         return
     exp, ip = m
+    if has_fitem(exp):
+        out.dim('undecided', 'function-item-in-result')
+        out.nontrivial = False
+        return
     out.nontrivial = ip.calls > 0
     for f in sorted(ip.features):
         out.dim('feature', f.split(':')[0] if f.startswith('placeholders') else f)
@@ -1070,7 +1240,17 @@ def check_program(case, out):
     out.obs = '%s -> %s' % (text[:140], (o[1] if o[0] == 'ok' else list(o)))
     if o[0] == 'ok' and o[1] == exp:
         return
-    first = (mismatch_kind(o), ip.features, exp, o)
+    report_program(ast, v, api, ip, exp, o, out)
+
+
+def report_program(ast, v, api, ip, exp, o, out):
+    text = render(ast)
+    if o[0] == 'err' and o[1] == 'XPST0008' and for_var_in_range(ast):
+        # parse-time over-approximation: "for $x in E" rejected when E mentions any $x (outer or inner binding)
+        out.fail('C16/scope/for-variable-named-in-its-range-expression/err:XPST0008',
+                 {'expr': text[:400], 'expected': exp, 'got': list(o)})
+        return
+    first = (mismatch_kind(o, exp), ip.features, exp, o)
     small, (mk, feats, exp2, o2) = minimise(ast, v, api, first)
     out.fail('C16/%s/%s' % (feature_of(feats), mk),
              {'expr': render(small), 'expected': exp2, 'got': list(o2), 'features': sorted(feats),
@@ -1095,19 +1275,21 @@ def check_equiv(case, out):
     o = eng(lt, v, api)
     out.obs = '%s == %s -> %s' % (lt[:90], ' , '.join(rts)[:90], o[1] if o[0] == 'ok' else list(o))
     if not (o[0] == 'ok' and o[1] == exp):
-        out.fail('C16/equiv/%s/%s' % (rel, mismatch_kind(o)),
-                 {'lhs': lt, 'rhs': rts, 'expected': exp, 'got': list(o)})
+        m = model_run(case['lhs'], v)
+        if m is not None and not has_fitem(m[0]) and not (o[0] == 'ok' and o[1] == m[0]):
+            # the model covers the indirect side: classify by the features of the reduced program
+            report_program(case['lhs'], v, api, m[1], m[0], o, out)
+        else:
+            out.fail('C16/equiv/%s/%s' % (rel, mismatch_kind(o, exp)),
+                     {'lhs': lt, 'rhs': rts, 'expected': exp, 'got': list(o)})
     # the direct side against the model, when the model covers it
-    for r_ast, rt in zip(case['rhs'][:1], rts[:1]):
-        m = model_run(r_ast, v)
-        if m is None:
-            continue
+    r_ast, rt = case['rhs'][0], rts[0]
+    m = model_run(r_ast, v)
+    if m is not None and not has_fitem(m[0]):
         out.dim('oracle', 'model-vs-engine-direct')
         o2 = eng(rt, v, api)
         if not (o2[0] == 'ok' and o2[1] == m[0]):
-            small, (mk, feats, exp2, o3) = minimise(r_ast, v, api, (mismatch_kind(o2), m[1].features, m[0], o2))
-            out.fail('C16/%s/%s' % (feature_of(feats), mk),
-                     {'expr': render(small), 'expected': exp2, 'got': list(o3), 'features': sorted(feats)})
+            report_program(r_ast, v, api, m[1], m[0], o2, out)
 
 
 def check_case(kind, case):
